@@ -31,13 +31,15 @@ type actRec struct {
 }
 
 type planCase struct {
-	r     *core.Rand
-	tab   *Table
-	tg    *TypeGen
-	vg    *ValGen
-	plan  *workflow.Plan
-	recs  map[*workflow.Action]*actRec
-	order []*actRec
+	PMethods float64 // share of payloads that are hand-declared types with methods
+	nStatic  int
+	r        *core.Rand
+	tab      *Table
+	tg       *TypeGen
+	vg       *ValGen
+	plan     *workflow.Plan
+	recs     map[*workflow.Action]*actRec
+	order    []*actRec
 }
 
 func (pc *planCase) id() uuid.UUID {
@@ -67,6 +69,13 @@ func (pc *planCase) state() *workflow.State {
 
 // payload makes one request/response value: mostly *struct or struct, sometimes another kind or nil.
 func (pc *planCase) payload(path string) (any, []*Canary, string) {
+	if pc.r.Chance(pc.PMethods) {
+		// a hand-declared type with methods (json.Marshaler, TextMarshaler, Stringer, error): see methods.go
+		pc.nStatic++
+		pl := &planter{n: pc.nStatic * 150}
+		x, name := pl.methodPayload(pc.r.Intn(nMethodPayloads), path)
+		return x, pl.cans, name
+	}
 	from := len(pc.vg.Canaries)
 	d := 1 + pc.r.Intn(pc.tg.MaxDepth)
 	var n *TNode
@@ -330,6 +339,9 @@ func (pc *planCase) cloneCase(entry string, ks bool, rootTerm string, origActs [
 		}
 		for gi, cs := range groups {
 			for _, c := range cs {
+				if c.NoJSON {
+					continue // not serialised at all (hidden by a promoted MarshalJSON): compared through the model only
+				}
 				f := c.Found(text)
 				if f {
 					found = append(found, c)
@@ -414,6 +426,9 @@ func (pc *planCase) renderCase(planTerm string) (string, renderObs) {
 		}
 		for gi, cs := range groups {
 			for _, c := range cs {
+				if c.NoJSON {
+					continue
+				}
 				f := c.Found(text)
 				if f {
 					found = append(found, c)
